@@ -200,12 +200,23 @@ def work(chunk):
             out["equal"] += 1
             # glue validation: solver-produced member / non-member of the SPEC language
             # must be accepted / rejected by the real Pattern::is_match
-            if idx % GLUE_EVERY == 0:
+            literal_path = rec.get("literal") is not None and len(rec["literal"]) > 0
+            if idx % GLUE_EVERY == 0 or (literal_path and idx % 3 == 0):
                 rs = e.spec_lang(specs[0], ab, ae, lp)
-                for positive in (True, False):
-                    w = e.member(rs, positive)
-                    if w is not None and relang.valid_scalar_string(w) and len(specs) == 1:
-                        out["glue"].append({"idx": idx, "t": t, "cfg": cfg, "s": w, "expect": positive})
+                probes = [None]
+                if literal_path:
+                    # the literal fast path of is_match is hand-modelled (contains / starts_with /
+                    # ends_with / ==): probe it with strings in which the literal occurs twice, and
+                    # with strings in which it occurs but (possibly) not where the anchors want it
+                    lit = e.lit("".join(chr(c) for c in rec["literal"]))
+                    probes.append(e.cat([e.full, lit, e.full, lit, e.full]))
+                    probes.append(e.cat([e.full, lit, e.allchar, e.full]))
+                    probes.append(e.cat([e.full, e.allchar, lit, e.full]))
+                for pr in probes:
+                    for positive in (True, False):
+                        w = e.member(rs, positive) if pr is None else e.member_with(rs, positive, pr)
+                        if w is not None and relang.valid_scalar_string(w) and len(specs) == 1:
+                            out["glue"].append({"idx": idx, "t": t, "cfg": cfg, "s": w, "expect": positive})
             if idx % 997 == 0:
                 out["samples"].append({"pattern": show(t), "cfg": cfg,
                                        "regex": "".join(chr(c) for c in rec.get("regex_cps") or []),
